@@ -905,7 +905,9 @@ func (t *TNC) onFrameErr(e FrameError) {
 // onFrame is called by the framers with mu held.
 func (t *TNC) onFrame(f HostFrame) {
 	f.Idx = len(t.Frames)
-	if lf := t.lastFault[f.Stream]; lf != nil && lf.Next == nil {
+	// the retransmission of a frame is the next frame of its kind: another
+	// goroutine of the host may get a command in between
+	if lf := t.lastFault[f.Stream]; lf != nil && lf.Next == nil && lf.Frame.Kind == f.Kind {
 		cp := f
 		lf.Next = &cp
 	}
